@@ -9,8 +9,10 @@ C11 as predicates over what was observed.
   exit when the root paths are pairwise different (a clash with a pattern the user registered through
   `Handle` is the documented behaviour of `Handle`, not a defect of `Add`).
 
-The classes of the two open findings are decidable predicates defined here as well: they are the
-extra hypotheses of the `_partial` theorems of `Props/C11.lean`.
+`F10b` is the class of the one open finding (the extra hypothesis of `C11_serve_partial`).  `F11` was
+the class of a finding repaired by 093fa53 (services with different root paths that want the same
+ServeMux pattern): no theorem assumes it any more; it stays defined because the check measures how
+often its histories visit it (a regression there must not go unnoticed).
 -/
 import Restful.Model.Registry
 namespace Restful
@@ -42,11 +44,25 @@ def regPatterns (root : Str) : List Str :=
   else if hasSuffix ['/'] (fixedPrefixPath root) then [fixedPrefixPath root]
   else [fixedPrefixPath root, fixedPrefixPath root ++ ['/']]
 
-/-- the patterns registered for the services with these roots, in order, starting with
-    `isRegisteredOnRoot = onRoot`: nothing is registered any more once a service landed on `/` -/
+/-- the patterns the services with these roots WANT, in order, starting with
+    `isRegisteredOnRoot = onRoot` (a pattern wanted by two services occurs twice): nothing is wanted
+    any more once a service landed on `/` -/
 def patsFrom : List Str → Bool → List Str
   | [], _ => []
   | r :: rs, onRoot => if onRoot then [] else regPatterns r ++ patsFrom rs (isRootPattern r)
+
+/-- the patterns `addHandler` registers for a service with this root path when the patterns `seen`
+    are mapped by the services registered before: those of its patterns that are missing (the
+    pattern `/` is registered without looking) -/
+def newPatterns (seen : List Str) (root : Str) : List Str :=
+  if isRootPattern root then [['/']] else (regPatterns root).filter fun p => !seen.contains p
+
+/-- the patterns REGISTERED for the services with these roots, in order (`seen`: the patterns mapped
+    by the services registered before): `patsFrom` without the repetitions -/
+def regFrom : List Str → List Str → Bool → List Str
+  | [], _, _ => []
+  | r :: rs, seen, onRoot =>
+    if onRoot then [] else newPatterns seen r ++ regFrom rs (seen ++ mappedOf r) (isRootPattern r)
 
 def flagFrom : List Str → Bool → Bool
   | [], onRoot => onRoot
@@ -55,8 +71,8 @@ def flagFrom : List Str → Bool → Bool
 def c11AddTotalHolds (roots plain : List Str) (panicked : Bool) : Bool :=
   !panicked || !distinctB roots || (patsFrom roots false).any (plain.contains ·)
 
-/-- class of finding F11: two services would register the same ServeMux pattern although their root
-    paths differ ("fixed prefixes collide") -/
+/-- class of the REPAIRED finding F11 (093fa53): two services want the same ServeMux pattern although
+    their root paths differ ("fixed prefixes collide").  A coverage class only: nothing assumes it. -/
 def F11 (roots : List Str) : Bool := !distinctB (patsFrom roots false)
 
 /-- no `Handle` is followed by a `Remove` (`seen`: a `Handle` already happened) -/
